@@ -482,6 +482,22 @@ Theorem C12_convert_heralded_correct :
 Proof. exact (fun K o SR ZM ninv Hn => @convert_heralded_correct K o SR ZM ninv Hn). Qed.
 Print Assumptions C12_convert_heralded_correct.
 
+(* the product of the scalars has an invertible squared modulus: with 16 |k_i|^2 = 1 for the three
+   heralded gates, K conj K * 16^(number of heralded two-qubit gates emitted) = 1
+   ([wprod o ops 1] = that power of 16) *)
+Theorem C12_kprod_unit :
+  forall (K : Type) (o : ops K), StarRing o ->
+  forall kcz kcx0 kcx1 : K * K,
+    kmul (co o) (kofZ (co o) 16) (kmul (co o) kcz (kconj (co o) kcz)) = k1 (co o) ->
+    kmul (co o) (kofZ (co o) 16) (kmul (co o) kcx0 (kconj (co o) kcx0)) = k1 (co o) ->
+    kmul (co o) (kofZ (co o) 16) (kmul (co o) kcx1 (kconj (co o) kcx1)) = k1 (co o) ->
+  forall (ops : list eop) (K0 w0 : K * K),
+    kmul (co o) (kmul (co o) K0 (kconj (co o) K0)) w0 = k1 (co o) ->
+    kmul (co o) (kmul (co o) (kprod o kcz kcx0 kcx1 ops K0) (kconj (co o) (kprod o kcz kcx0 kcx1 ops K0)))
+         (wprod o ops w0) = k1 (co o).
+Proof. exact (fun K o SR => @kprod_unit K o SR). Qed.
+Print Assumptions C12_kprod_unit.
+
 (* the instance in the exact number field of the heralded gates (C13 tower B): the three gate
    hypotheses are C13_CZ_Heralded / C13_CNOT_Heralded, each scalar has 16 |k|^2 = 1; through
    C13_evaluation_towers every equation is an equation between complex numbers *)
@@ -490,6 +506,10 @@ Theorem C12_convert_heralded_correct_tower_B :
     (kmul cB (kofZ cB 16) (kmul cB kcz (kconj cB kcz)) = k1 cB /\
      kmul cB (kofZ cB 16) (kmul cB kcx0 (kconj cB kcx0)) = k1 cB /\
      kmul cB (kofZ cB 16) (kmul cB kcx1 (kconj cB kcx1)) = k1 cB) /\
+    (* |K|^2 is invertible: K conj K * 16^(number of heralded two-qubit gates) = 1 *)
+    (forall ops : list eop,
+       kmul cB (kmul cB (kprod oB kcz kcx0 kcx1 ops (k1 cB)) (kconj cB (kprod oB kcz kcx0 kcx1 ops (k1 cB))))
+               (wprod oB ops (k1 cB)) = k1 cB) /\
     forall (ang : nat -> KB * KB) (nq : nat) (gs : list qgate) (ops : list eop) (rules : option (list nat)),
       Forall (ConvertP.in_range nq) gs -> Forall (fun g => NoDup (g_qubits g)) gs ->
       convert false gs = Ok (ops, rules) ->
@@ -516,11 +536,14 @@ Theorem C12_run_emitted_def :
                                             end)) ops (k1 (co o)) /\
     Vsrc o h ang nq gs =
       (fun b' b => sval (co o) (run_src sst (sact (co o) (m1 o h ang)) 0 gs (s_id (co o) nq)) (lab b') (lab b)) /\
-    (forall s i, m1 o h ang Gh i = m1_of (named_sq o h gH) /\ m1 o h ang Grz i = m1_of (named_rq o gRz (fst (ang i)) (snd (ang i))) /\
-                 gate_of o h r2 r3i qi gm r7 ang (ECZ true s) = gate_CZ_Heralded o h r2 qi gm /\
-                 gate_of o h r2 r3i qi gm r7 ang (ECX true i s) = gate_CNOT_Heralded o h r2 qi gm (Z.of_nat i)).
-Proof. exact (fun K o h r2 r3i qi gm r7 ang kcz kcx0 kcx1 ops c nq gs =>
-                conj eq_refl (conj eq_refl (conj eq_refl (fun s i => conj eq_refl (conj eq_refl (conj eq_refl eq_refl)))))). Qed.
+    (forall s i : nat,
+       m1 o h ang Gh i = m1_of (named_sq o h gH) /\
+       m1 o h ang Grz i = m1_of (named_rq o gRz (fst (ang i)) (snd (ang i))) /\
+       gate_of o h r2 r3i qi gm r7 ang (EGate1 Gh i s) = gate_sq o h gH /\
+       gate_of o h r2 r3i qi gm r7 ang (EGate1 Grz i s) = gate_rq o gRz (fst (ang i)) (snd (ang i)) /\
+       gate_of o h r2 r3i qi gm r7 ang (ECZ true s) = gate_CZ_Heralded o h r2 qi gm /\
+       gate_of o h r2 r3i qi gm r7 ang (ECX true i s) = gate_CNOT_Heralded o h r2 qi gm (Z.of_nat i)).
+Proof. exact run_emitted_def. Qed.
 Print Assumptions C12_run_emitted_def.
 
 (* non-vacuity: h(0); cx(0,1) on two qubits.  The converter emits H at mode 0 and CNOT_Heralded(1)
